@@ -1129,6 +1129,7 @@ func c11NoCrash(c *Check) {
 func c11Staleness(c *Check) {
 	c.Rule("R5", "a staleness test `a.Sub(b) ⋈ d` compares a later instant minus a stored stamp (it can be true)", 1)
 	c11StalenessIn(c, "R5", []string{limitersRel, limitsRel, "internal/smtpconn/pool"})
+	c11ReaperSparesHeldBuckets(c, "R10")
 }
 
 func c11StalenessIn(c *Check, rule string, rels []string) {
